@@ -18,6 +18,12 @@ The network is an *outcome script*: the `j`-th write of the run has outcome `wo 
 (`ok` = write returned nil and the sink got the octets, `lost` = write returned nil but the octets
 never reach the sink (TCP after a peer close, UDP to a closed port), `errPipe` = error ending in
 "broken pipe", `errOther` = any other error); the `j`-th redial has outcome `dl j`.
+How long a write takes is not part of an outcome: a write that blocks because the sink, still
+connected, does not read for a while (event `z<k>` of the socket harness: a message larger than the
+socket buffers and seconds of silence) and returns nil once the sink reads again is an `ok` write.
+The loop sets no deadline, so on a connection that stays healthy a write cannot fail — a failed
+write always belongs to a connection that is gone, and the part of a line it may have put on the wire
+is gone with it (the retry of the whole message never lands behind a fragment of itself).
 Core Lean only.
 -/
 namespace Vflow
